@@ -331,6 +331,13 @@ fn step_oracle(cfg: &Cfg, v: &View, prev: Option<&View>, strict_prev: bool, acce
                         return Err(("gz-roundtrip", format!("{logical}.gz decompresses to {:?}, the plain file held {:?}", String::from_utf8_lossy(content), String::from_utf8_lossy(old))));
                     }
                 }
+                // a compressed file that existed before the operation and still exists holds
+                // what it held (a loss here would pass for a removal by the limit in clause 2)
+                if let Some((true, old)) = p.snap.get(logical).map(|(g, c)| (*g, c)) {
+                    if old != content {
+                        return Err(("gz-roundtrip", format!("{logical}.gz held {:?} before the operation and holds {:?} afterwards", String::from_utf8_lossy(old), String::from_utf8_lossy(content))));
+                    }
+                }
             }
         }
     }
